@@ -20,7 +20,7 @@ RULE = ("random programs from the typed program IR (do if cond when and or setv 
         "Non-trivial = compiled AST hoists a statement out of expression position (a _hy_ temporary) and "
         "the reference trace has >= 3 events; distinct by program text+mode.")
 FLOOR = {"quick": 300, "thorough": 5000}
-BUDGET = {"quick": 40, "thorough": 600}
+BUDGET = {"quick": 34, "thorough": 600}
 CASE_TIMEOUT = 20
 NEEDS_EVENTS = True
 ANCHORS = [
